@@ -84,6 +84,8 @@ def value_json(t, v, mode='readable'):
         return {'string': b58.sig_from_bytes(v[1])}
     if k == 'chain_id':
         return {'string': b58.chain_from_bytes(v[1])}
+    if k == 'ticket':       # <<"t", ticketer, contents, amount>>: a ticket that arrives from outside (parameter / storage) is written as the comb
+        return {'prim': 'Pair', 'args': [value_json(('address',), v[1], mode), {'prim': 'Pair', 'args': [value_json(t[1], v[2], mode), {'int': str(v[3][1] if isinstance(v[3], tuple) else v[3])}]}]}
     raise Unsup('value_json ' + k)
 
 
